@@ -582,3 +582,61 @@ Fixpoint visible_pairs (s : fs) (t : list op) (p q : path) : list (option data *
   | [] => []
   | o :: t' => visible_pairs (step s o) t' p q
   end.
+
+(** ** Round 7 (N): the identity of the destination path: list ids
+
+    Every list of BOTH arrays (block lists, allow lists) is stored at
+    data/filters/<id>.txt: two lists with one id share one file, and the
+    (atomic) save of one replaces the other's.  Ids come from one generator
+    (DNSFilter.idGen): filtering.New seeds it ([seed]; as the code is: the
+    Unix time of the start, an oracle value [now]), add_url takes [next] = the
+    counter incremented.  Not modelled: lists without an id in the
+    configuration (loadFilters gives them the next id) and idGenerator.fix
+    (duplicates INSIDE one array are renumbered at start-up; it never compares
+    the two arrays): the configurations considered have non-zero ids, distinct
+    over both arrays. *)
+
+Record idstate := { ids_block : list N; ids_allow : list N; id_cur : N }.
+
+Inductive idop :=
+  | IRestart (now : N)        (* filtering.New; [now]: the clock at that moment *)
+  | IAdd (allow : bool).      (* add_url (a successful one: the list is appended) *)
+
+Definition ids_all (st : idstate) : list N := ids_block st ++ ids_allow st.
+
+Definition lmax (l : list N) : N := fold_right N.max 0 l.
+
+(** the seed of the generator at a start: as the code is, and the refuted
+    variant (the largest id of the BLOCK lists only) *)
+Definition seed_clock (now : N) (st : idstate) : N := now.
+Definition seed_max_block (now : N) (st : idstate) : N := lmax (ids_block st).
+
+Definition idstep (seed : N -> idstate -> N) (st : idstate) (o : idop) : idstate :=
+  match o with
+  | IRestart now => {| ids_block := ids_block st; ids_allow := ids_allow st; id_cur := seed now st |}
+  | IAdd allow =>
+      let i := id_cur st + 1 in
+      if allow then {| ids_block := ids_block st; ids_allow := ids_allow st ++ [i]; id_cur := i |}
+      else {| ids_block := ids_block st ++ [i]; ids_allow := ids_allow st; id_cur := i |}
+  end.
+
+Definition idrun (seed : N -> idstate -> N) (st : idstate) (ops : list idop) : idstate :=
+  fold_left (idstep seed) ops st.
+
+(** THE ASSUMPTION on the code as it is: at every start the clock reads at
+    least every id in use (ids in the configuration are timestamps of the
+    past, plus the lists added since).  A restart within the second of the
+    previous start after an add_url breaks it (DESIGN section 14). *)
+Fixpoint clock_ahead (st : idstate) (ops : list idop) : Prop :=
+  match ops with
+  | [] => True
+  | o :: r =>
+      match o with IRestart now => lmax (ids_all st) <= now | IAdd _ => True end /\
+      clock_ahead (idstep seed_clock st o) r
+  end.
+
+(** Round 7 (M): what a start does to a list's entry: New loads (computes the
+    checksum of) the ENABLED lists only; a disabled list has no checksum in
+    memory.  [load_disabled = true] is the refuted variant. *)
+Definition start_sum (load_disabled : bool) (sum : data -> N) (enabled : bool) (file : option data) : N :=
+  if enabled || load_disabled then match file with Some c => sum c | None => 0 end else 0.
